@@ -165,7 +165,11 @@ theorem bai_chunks_complete (recs : List Bai.BaiRec) (h : SortedInput (recs.map 
     (∃ cs, Bai.chunks Coord.overlappingBinsFor s (mergeChunks pre (baiBuilt recs)) (baiRec r).rid beg stop = .ok cs ∧
         coveredBy cs r.chunk) := by
   have hmem : baiRec r ∈ recs.map baiRec := List.mem_map.2 ⟨r, hr, rfl⟩
-  have hbin := bai_bin_law (baiRec r) (h.ok _ hmem) hp hne rfl beg stop hb hq hs29 hov1 hov2
+  have hbinEq : (baiRec r).bin = Coord.binFor (baiRec r).start (baiRec r).stop := by
+    show Coord.binFor r.pos (if r.stop = r.pos then r.stop + 1 else r.stop) = Coord.binFor r.pos r.stop
+    have : ¬ r.stop = r.pos := by omega
+    simp [this]
+  have hbin := bai_bin_law (baiRec r) (h.ok _ hmem) hp hne hbinEq beg stop hb hq hs29 hov1 hov2
   obtain ⟨⟨cs, h1, h2⟩, ⟨cs', h1', h2'⟩⟩ := chunks_complete (recs.map baiRec) h (baiRec r) hmem hp hne beg stop
     (Coord.overlappingBinsFor beg stop) hb hq hov2 hbin pre s hpre hs
   constructor
